@@ -25,7 +25,8 @@ type PropSpec struct {
 var propSpecs = map[string]*PropSpec{
 	"C01": {ID: "C01", Pkgs: []string{"./benchfmt"}},
 	"C02": {ID: "C02", Pkgs: []string{"./benchfmt", "./benchunit", "./benchfmt/internal/bytesconv"}},
-	"C03": {ID: "C03", Pkgs: []string{"./benchfmt", "./benchunit", "./benchfmt/internal/bytesconv"}},
+	"C03": {ID: "C03", Pkgs: []string{"./benchfmt", "./benchunit", "./benchfmt/internal/bytesconv"}, BoundedChecks: []boundedSpec{
+		{"benchfmt/internal/bytesconv", "parsefloat", "bytesconv.ParseFloat and Atoi agree bit for bit (value and error kind) with strconv on an enumerated corpus — stands in for the multiprecision slow path (decimal.go, atofHex), which is outside deductive reach"}}},
 	"C04": {ID: "C04", Pkgs: []string{"./benchfmt", "./benchunit", "./benchproc"}},
 	"C05": {ID: "C05", Pkgs: []string{"./benchfmt", "./benchproc"}, BoundedChecks: []boundedSpec{
 		{"benchproc", "extract", "key extraction (/k first segment, /gomaxprocs, absent = empty) against a reference written from the format description, for every name up to a stated length over the alphabet {a b / - = 1}"}}},
@@ -169,6 +170,7 @@ func runProperty(repo, lib, prop, tier string) int {
 	knownHit := map[int]bool{}
 	var lines []string
 	nReplay := 0
+	reported := map[string]bool{} // one VIOLATION line per clause, not per path
 	for _, k := range order {
 		res := done[k]
 		if res.Trusted {
@@ -210,7 +212,11 @@ func runProperty(repo, lib, prop, tier string) int {
 			} else if isKnown {
 				// not counted as an obligation of the proof
 				continue
+			} else if reported[stableLabel(o.Label)] {
+				totalObl++
+				violations++
 			} else {
+				reported[stableLabel(o.Label)] = true
 				totalObl++
 				violations++
 				nReplay++
